@@ -701,6 +701,36 @@ inline std::string predicateNearMisses(const bspline::Spline<T, o> &a, Rng &g) {
   }
   const Spline<T, o> copy(a);
   if (!(copy == a) || copy != a) return "copy != original";
+  // results of scaling: zero exactly when every coefficient is zero - also
+  // when a scalar 0 made them zero, or (floating types) when all products
+  // underflowed
+  auto allZero = [](const Spline<T, o> &s) {
+    for (const auto &row : s.getCoefficients())
+      for (const auto &x : row)
+        if (!(x == mk<T>(R(0)))) return false;
+    return true;
+  };
+  {
+    const Spline<T, o> z0 = a * mk<T>(R(0));
+    if (!z0.isZero()) return "isZero() false after multiplication by the scalar 0";
+    Spline<T, o> z1(a);
+    z1 *= mk<T>(R(0));
+    if (!z1.isZero() || !(z1 == z0)) return "isZero() false after *= 0";
+    if (!(z0 * mk<T>(R(5))).isZero()) return "isZero() false for a scaled zero spline";
+  }
+  if constexpr (!ST<T>::exact) {
+    const T tiny = std::numeric_limits<T>::min();
+    Spline<T, o> u = (a * tiny) * tiny;  // every product underflows
+    if (u.isZero() != allZero(u))
+      return "isZero() does not describe the coefficients after underflow";
+    Spline<T, o> v(a);
+    v *= tiny;
+    v *= tiny;
+    if (v.isZero() != allZero(v) || !(v == u))
+      return "isZero() does not describe the coefficients after in-place underflow";
+    const Spline<T, o> w = -(a / (T(1) / tiny)) * tiny;
+    if (w.isZero() != allZero(w)) return "isZero() wrong after division/negation underflow";
+  }
   return "";
 }
 
